@@ -302,8 +302,8 @@ func (g *ProgGen) pick(ps [][]string) []string {
 var intLits = []string{"0", "1", "2", "3", "7", "10", "100", "46341", "2147483647"}
 var decLits = []string{"0.0", "0.5", "1.0", "1.5", "2.50", "3.14159", "100.0", "0.001"}
 var strLits = []string{"''", "'a'", "'abc'", "'Ann'", "'Smith'", "'é'", "'a b'", "'1'", "'true'", "'official'", "'x\\'y'"}
-var dateLits = []string{"@2020", "@2020-02", "@2020-02-29", "@1990-02-28", "@2021-12-31"}
-var dtLits = []string{"@2020T", "@2020-02-29T10", "@2020-02-29T10:30:45", "@2020-02-29T10:30:45.123", "@2020-02-29T10:30:45Z", "@2020-02-29T10:30:45+05:30"}
+var dateLits = []string{"@2020", "@2020-02", "@2020-02-29", "@1990-02-28", "@2021-12-31", "@9999-12-31", "@0001-01-01", "@9999"}
+var dtLits = []string{"@2020T", "@2020-02-29T10", "@2020-02-29T10:30:45", "@2020-02-29T10:30:45.123", "@2020-02-29T10:30:45Z", "@2020-02-29T10:30:45+05:30", "@9999-12-31T23:59:59Z", "@0001-01-01T00:00:00+14:00", "@2020-01-01T23:40-03:30"}
 var timeLits = []string{"@T10", "@T10:30", "@T10:30:45", "@T10:30:45.123"}
 var qtyLits = []string{"1 year", "2 months", "3 weeks", "10 days", "5 hours", "90 minutes", "30 seconds", "1 'mg'", "2.5 'kg'", "1 'wk'"}
 var typeSpecs = []string{"Integer", "String", "Boolean", "Decimal", "Date", "DateTime", "Quantity", "System . Integer", "System . String", "FHIR . string", "FHIR . boolean", "string", "boolean", "Patient", "HumanName", "FHIR . Patient", "Element", "Resource", "DomainResource", "code", "integer"}
